@@ -130,6 +130,8 @@ func constantKey(o tengo.Object) (string, bool) {
 }
 
 func check(t ev.TB, test string, p payload, classes []string) {
+	ev.InFlight(test, p)
+	defer ev.InFlightDone()
 	mm := moduleMap(p)
 	compile := func() (*bridge.Unit, *bridge.CompileError) {
 		return bridge.CompileUnit(p.Source, p.Modules, p.Inputs, mm)
